@@ -63,8 +63,10 @@ class TxMonitor {
     return best;
   }
 
-  void run(const std::vector<BusByte>& log, std::vector<ReqInfo>& reqs, const MonConfig& cfg) {
+  void run(const std::vector<BusByte>& log, std::vector<ReqInfo>& reqs, const MonConfig& cfg, const std::vector<DroppedWrite>* dropped = nullptr) {
     bool hostSilentUntilSyn = false;
+    bool lastLossMissingEcho = false;
+    size_t di = 0;
     bool hostIsGenerator = false;
     bool lostSinceOwn = false;
     int synsSinceLost = 0;
@@ -73,6 +75,26 @@ class TxMonitor {
     const size_t n = log.size();
     auto isHost = [&](size_t k) { return log[k].origin == 'H' || log[k].origin == 'X'; };
     while (i < n) {
+      // symbols the host wrote that were swallowed before they reached the wire: judged like any other write, then a lost arbitration
+      while (dropped && di < dropped->size() && (*dropped)[di].pos <= i) {
+        const DroppedWrite& d = (*dropped)[di++];
+        hostBytes++;
+        std::string where = "swallowed write " + vf::hex1(d.b) + " before " + ctx(log, i);
+        if (cfg.readOnly) { add("c03-readonly-transmits", where); continue; }
+        if (hostSilentUntilSyn) add("c03-transmits-before-next-syn", where);
+        else if (!(i > 0 && log[i - 1].b == 0xAA)) add("c03-transmits-not-after-syn", where);
+        arbitrations++;
+        bool pending = false;
+        for (auto& r : reqs) if (!r.master.empty() && r.master[0] == d.b && r.submitted <= d.t && (r.done < 0 || r.done >= d.t - SYM)) pending = true;
+        if (!pending) {
+          bool drained = false;     // (sub-class as below: completed with "no signal" while the arbitration stayed armed in the device)
+          for (auto& r : reqs) if (!r.master.empty() && r.master[0] == d.b && r.result == -23 && r.done >= 0 && r.done < d.t) drained = true;
+          add(std::string("c03-arbitration-without-pending-request") + (drained ? ":armed-before-signal-loss" : ""), "address " + vf::hex1(d.b) + " " + where);
+        }
+        if (lostSinceOwn && synsSinceLost < 2) add(std::string("c03-arbitration-too-early-after-loss") + (lastLossMissingEcho ? ":after-missing-echo" : ""), std::to_string(synsSinceLost) + " SYN since the lost arbitration: " + where);
+        arbLost++; adverse++;
+        lostSinceOwn = true; synsSinceLost = 0; hostSilentUntilSyn = true; lastLossMissingEcho = true;
+      }
       const BusByte& e = log[i];
       if (!isHost(i)) {
         if (e.b == 0xAA) { hostSilentUntilSyn = false; if (lostSinceOwn) synsSinceLost++; i++; continue; }
@@ -120,10 +142,11 @@ class TxMonitor {
         for (auto& r : reqs) if (!r.master.empty() && r.master[0] == e.hostWrote && r.result == -23 && r.done >= 0 && r.done < e.t) drained = true;
         add(std::string("c03-arbitration-without-pending-request") + (drained ? ":armed-before-signal-loss" : ""), "address " + vf::hex1(e.hostWrote) + " at " + ctx(log, i));
       }
-      if (lostSinceOwn && synsSinceLost < 2) add("c03-arbitration-too-early-after-loss", std::to_string(synsSinceLost) + " SYN since the lost arbitration: " + ctx(log, i));
+      // (after an address that was swallowed without any echo the handler does wait; the known finding is about losses it saw as a symbol)
+      if (lostSinceOwn && synsSinceLost < 2) add(std::string("c03-arbitration-too-early-after-loss") + (lastLossMissingEcho ? ":after-missing-echo" : ""), std::to_string(synsSinceLost) + " SYN since the lost arbitration: " + ctx(log, i));
       if (e.b != e.hostWrote) {         // lost (collision result differs from what the host wrote)
         arbLost++; adverse++;
-        lostSinceOwn = true; synsSinceLost = 0; hostSilentUntilSyn = true;
+        lostSinceOwn = true; synsSinceLost = 0; hostSilentUntilSyn = true; lastLossMissingEcho = false;
         i++;
         continue;
       }
